@@ -106,6 +106,30 @@ def run(prop, tier, seed, replay=None):
             else:
                 violations.append((r, it))
 
+    # the serve loops run on real threads: a scenario that shows a finding is run again as it is, and the finding counts
+    # when it shows again (see followcheck); what does not is recorded as unconfirmed
+    unconfirmed = []
+    if violations and not replay and len({r["sc"]["name"] for r, _ in violations}) < 2:
+        # (two scenarios of one run that show a finding independently confirm each other)
+        kept, seen = [], set()
+        for r, it in violations:
+            if r["sc"]["name"] in seen:
+                continue
+            seen.add(r["sc"]["name"])
+            if len(seen) > 3 and kept:
+                break
+            again = False
+            for _ in range(4):
+                rr = run_all([r["sc"]], jobs=1)[0]
+                if any(prop in x["props"] for x in rr["fnd"]):
+                    again = True
+                    break
+            if again:
+                kept.append((r, it))
+            else:
+                unconfirmed.append({"scenario": r["sc"]["name"], "kind": it.get("kind"), "why": it.get("why")})
+        violations = kept
+
     rc, lines, replay_path = 0, [], None
     for kf in {json.dumps(k["signature"], sort_keys=True): k for k in known_hit}.values():
         lines.append(f"KNOWN-FINDING: property={prop} {kf['what']}")
@@ -157,6 +181,7 @@ def run(prop, tier, seed, replay=None):
         "step_histogram": dict(hist),
         "findings_checked": sum(len(r["fnd"]) for r in results),
         "known_findings_hit": [k["id"] for k in known_hit],
+        "unconfirmed_findings": unconfirmed,
         "harness_build_s": round(dt, 1), "lake_s": aud.get("lake_s"),
     }
     if tier == "thorough":
